@@ -476,6 +476,32 @@ func C07(tier string) int {
 			}
 		}
 	}
+	// short lists that REPEAT an actor in front of the blocked one
+	for ri, acts := range []L{{Carol, Carol, Dave}, {Carol, Emb("Person", Carol), Dave}, {Emb("Person", Carol), Carol, Carol, Dave}, {Carol, Dave, Carol, Dave}, {Carol, Carol}} {
+		blocked := Dave
+		if ri == 4 {
+			blocked = Carol
+		}
+		sc := &Scenario{Name: fmt.Sprintf("c07/repeated actors %d, the last one blocked", ri), Kind: ap.Both, Entry: "PostInbox", URL: inbox(Alice),
+			Body: Doc("Like", RAct, "actor", acts, "object", Note1), Tweak: func(a *ap.App) { a.BlockedSet[blocked] = true; a.Callbacks = ap.CBWrapped }}
+		a := sc.World()
+		before := a.Canonical()
+		out := sc.On(a, nil)
+		nLong++
+		if out.Panic != nil {
+			continue
+		}
+		se := 0
+		for _, cl := range a.Log {
+			if isSideEffect(cl.Op) {
+				se++
+			}
+		}
+		if se > 0 || a.Canonical() != before || len(a.Deliveries) > 0 {
+			res.Violate("side-effect-after-failed-block-check|PostInbox|repeated-actors", fmt.Sprintf("%s: %d side-effect calls although actor %s is blocked; calls=%v", sc.Name, se, shortID(blocked), callNames(a.Log, 12)),
+				M{"check": "C07", "part": "repeated-actors", "scenario": sc.Name, "body": sc.Body})
+		}
+	}
 	res.Evaluations += nMut + nLong
 	res.Extra["long_actor_list_requests"] = nLong
 	res.Extra["unusual_body_requests"] = nMut
